@@ -26,19 +26,30 @@ import (
 // the delivered set must stop changing for 6 s before a missing delivery is judged (a stable wrong state, not a slow one).
 func TestVerif_C08_GroupContexts(t *testing.T) {
 	acct := vacct.Get("C08")
-	vacct.RapidCheck(t, vacct.N(6, 300), func(rt *rapid.T) {
-		kind := rapid.SampledFrom([]string{"multimember", "contact"}).Draw(rt, "kind")
+	vacct.RapidCheck(t, vacct.N(16, 300), func(rt *rapid.T) {
+		// the receiving device belongs to another member, or is a second device of the sender's own account (the
+		// announcement it holds is then the one addressed to their common member)
+		kind := rapid.SampledFrom([]string{"multimember", "contact", "multimember-sibling", "account-sibling"}).Draw(rt, "kind")
+		sibling := kind == "multimember-sibling" || kind == "account-sibling"
 		a := vNewReplica(t, "A", nil)
-		b := vNewReplica(t, "B", nil)
+		var b *vReplica
+		if sibling {
+			b = vNewReplica(t, "B", a)
+		} else {
+			b = vNewReplica(t, "B", nil)
+		}
 		defer a.close()
 		defer b.close()
 		var g *protocoltypes.Group
 		var aContact, bContact func() error
 		ask, _ := a.ss.GetAccountPrivateKey()
 		bsk, _ := b.ss.GetAccountPrivateKey()
-		if kind == "contact" {
+		switch kind {
+		case "contact":
 			g, _ = a.ss.GetGroupForContact(bsk.GetPublic())
-		} else {
+		case "account-sibling":
+			g = a.accountGroup(t)
+		default:
 			g, _, _ = NewGroupMultiMember()
 		}
 		agc, bgc := a.open(t, g), b.open(t, g)
@@ -174,7 +185,10 @@ func TestVerif_C08_GroupContexts(t *testing.T) {
 			}
 		}
 		if !b.ss.IsChainKeyKnownForDevice(vCtx, gpk, adev) {
-			rt.Fatalf("harness: B never learnt A's chain key (plan %s; that is C05's subject)", plan)
+			// B holds the announcement addressed to its member (all of A's metadata entries were handed over) and is active
+			sz, _ := bgc.MessageStore().CacheSizeForDevicePK(rawA)
+			fail("decryptable-not-delivered", "B is active and holds all of A's metadata entries, among them A's chain-key announcement to B's member made before every message, "+
+				"but never took the key: %d of %d messages delivered, %d parked", len(got), n, sz)
 		}
 		for _, id := range ids {
 			p, ok := got[id]
@@ -192,6 +206,6 @@ func TestVerif_C08_GroupContexts(t *testing.T) {
 		catchUp := plan == "metadata,messages,activate" || plan == "messages,metadata,activate"
 		acct.Case(catchUp, fmt.Sprintf("gc|%s|%s|%d", kind, plan, n), func() any {
 			return map[string]any{"kind": "group-contexts", "group": kind, "plan": plan, "messages": n}
-		}, "group-context", lbl07(catchUp, "group-context/parked-before-catch-up"), lbl07(poisonAt >= 0, "group-context/undecodable-entry-in-the-batch"))
+		}, "group-context", lbl07(catchUp, "group-context/parked-before-catch-up"), lbl07(poisonAt >= 0, "group-context/undecodable-entry-in-the-batch"), lbl07(sibling, "group-context/receiver-is-a-sibling-device"))
 	})
 }
